@@ -81,6 +81,7 @@ type half struct {
 	usedTimeoutCall                         map[int]bool
 	splitReads                              int
 	closeTime                               time.Time
+	waiting                                 int // Read calls currently blocked on an empty buffer
 }
 
 func newHalf(capacity int) *half {
@@ -347,11 +348,24 @@ func (c *Conn) Read(b []byte) (int, error) {
 			}
 		}
 		ch := h.changed
+		h.waiting++
 		h.mu.Unlock()
-		if err := c.wait(ch, dl); err != nil {
+		err := c.wait(ch, dl)
+		h.mu.Lock()
+		h.waiting--
+		h.mu.Unlock()
+		if err != nil {
 			return 0, err
 		}
 	}
+}
+
+// ReadBlocked reports whether a Read on this end is currently blocked with nothing buffered:
+// this end has consumed everything it was sent and is waiting for more.
+func (c *Conn) ReadBlocked() bool {
+	c.in.mu.Lock()
+	defer c.in.mu.Unlock()
+	return c.in.waiting > 0 && len(c.in.buf) == 0 && !c.in.wclosed && !c.in.cut
 }
 
 func (c *Conn) wait(ch chan struct{}, dl time.Time) error {
